@@ -600,6 +600,17 @@ func (c *Ctx) summariseStmts(stmts []ast.Stmt, nodeName, byteVar string, pos tok
 					continue
 				}
 			}
+			// n4 := ref.asNode4(): an accessor whose body is the cast
+			if call, ok := ast.Unparen(as.Rhs[0]).(*ast.CallExpr); ok && !isConversion(info, call) && c.m.kindByStruct(info.TypeOf(call)) != nil {
+				if cu := c.m.calleeUnit(call); cu != nil && cu.Lit == nil {
+					if r := simpleReturn(cu); r != nil {
+						if cv, ok := ast.Unparen(r).(*ast.CallExpr); ok && isConversion(info, cv) && c.m.kindByStruct(info.TypeOf(cv)) != nil {
+							a.node = as.Lhs[0].(*ast.Ident).Name
+							continue
+						}
+					}
+				}
+			}
 		}
 		rest = append(rest, st)
 	}
@@ -847,7 +858,7 @@ func (c *Ctx) summariseStmts(stmts []ast.Stmt, nodeName, byteVar string, pos tok
 			case *ast.AssignStmt:
 				if x.Tok == token.DEFINE && len(x.Lhs) == 1 && len(x.Rhs) == 1 {
 					name := x.Lhs[0].(*ast.Ident).Name
-					if call, ok := ast.Unparen(x.Rhs[0]).(*ast.CallExpr); ok && (strings.HasPrefix(c.m.calleeName(call), "searchNode") || c.searchWrapper(c.m.calleeUnit(call)) != nil) {
+					if call, ok := ast.Unparen(x.Rhs[0]).(*ast.CallExpr); ok && (c.isLaneSearch(call) || c.searchWrapper(c.m.calleeUnit(call)) != nil) {
 						searchVars[name] = true
 						a.idx[name] = "ι"
 						domain = "N.childrenLen"
@@ -863,7 +874,7 @@ func (c *Ctx) summariseStmts(stmts []ast.Stmt, nodeName, byteVar string, pos tok
 				if x.Init != nil {
 					if as, ok := x.Init.(*ast.AssignStmt); ok && as.Tok == token.DEFINE && len(as.Lhs) == 1 {
 						name := as.Lhs[0].(*ast.Ident).Name
-						if call, ok := ast.Unparen(as.Rhs[0]).(*ast.CallExpr); ok && (strings.HasPrefix(c.m.calleeName(call), "searchNode") || c.searchWrapper(c.m.calleeUnit(call)) != nil) {
+						if call, ok := ast.Unparen(as.Rhs[0]).(*ast.CallExpr); ok && (c.isLaneSearch(call) || c.searchWrapper(c.m.calleeUnit(call)) != nil) {
 							searchVars[name] = true
 							a.idx[name] = "ι"
 							domain = "N.childrenLen"
@@ -910,6 +921,21 @@ func (c *Ctx) summariseStmts(stmts []ast.Stmt, nodeName, byteVar string, pos tok
 						if len(y.Results) == 1 {
 							if ue, ok := ast.Unparen(y.Results[0]).(*ast.UnaryExpr); ok && ue.Op == token.AND {
 								use = ue.X
+							}
+						}
+						// return t.searchBelow(N.children[i], …): the descent continues by a call
+						// that is handed the child (a recursive lookup)
+						if len(y.Results) >= 1 {
+							if call, ok := ast.Unparen(y.Results[0]).(*ast.CallExpr); ok && !isConversion(info, call) && c.m.calleeUnit(call) != nil {
+								var refArgs []ast.Expr
+								for _, a := range call.Args {
+									if _, isIdx := ast.Unparen(a).(*ast.IndexExpr); isIdx && c.isNodeRefType(info.TypeOf(a)) {
+										refArgs = append(refArgs, a)
+									}
+								}
+								if len(refArgs) == 1 {
+									use = refArgs[0]
+								}
 							}
 						}
 					case *ast.AssignStmt:
@@ -1342,6 +1368,9 @@ func ruleR09R19(c *Ctx) {
 				if i := strings.IndexByte(base, '$'); i >= 0 {
 					base = base[:i]
 				}
+				if i := strings.LastIndexByte(base, '.'); i >= 0 {
+					base = base[i+1:] // a method of a scanner type: leafScanner.backward
+				}
 				wantDir := "desc"
 				if base == "backward" {
 					wantDir = "asc"
@@ -1415,17 +1444,25 @@ func ruleR09R19(c *Ctx) {
 		fl := c.e.flow(u)
 		props := append(c.attribute(u, "C01", "C08", "C09"), "C10")
 		searchVar := map[*types.Var]*ast.CallExpr{}
+		posVar := map[*types.Var]*ast.CallExpr{}
 		ast.Inspect(u.Body, func(n ast.Node) bool {
 			if as, ok := n.(*ast.AssignStmt); ok && len(as.Lhs) == 1 && len(as.Rhs) == 1 {
-				if call, ok := ast.Unparen(as.Rhs[0]).(*ast.CallExpr); ok && (strings.HasPrefix(c.m.calleeName(call), "searchNode") || c.searchWrapper(c.m.calleeUnit(call)) != nil) {
+				if call, ok := ast.Unparen(as.Rhs[0]).(*ast.CallExpr); ok && (c.isLaneSearch(call) || c.searchWrapper(c.m.calleeUnit(call)) != nil) {
 					if v := identVar(info, as.Lhs[0]); v != nil {
 						searchVar[v] = call
+					}
+				}
+				// the insert-position search of a sorted size class answers the same way: -1 when
+				// no lane holds a larger byte, a lane index (0 included) otherwise
+				if call, ok := ast.Unparen(as.Rhs[0]).(*ast.CallExpr); ok && isInsertPosCall(m, call) {
+					if v := identVar(info, as.Lhs[0]); v != nil {
+						posVar[v] = call
 					}
 				}
 			}
 			return true
 		})
-		if len(searchVar) == 0 {
+		if len(searchVar) == 0 && len(posVar) == 0 {
 			continue
 		}
 		// the only constant a search result is meaningfully compared with is the not-found value
@@ -1441,7 +1478,7 @@ func ruleR09R19(c *Ctx) {
 			}
 			for _, pair := range [][2]ast.Expr{{be.X, be.Y}, {be.Y, be.X}} {
 				v := identVar(info, pair[0])
-				if v == nil || searchVar[v] == nil {
+				if v == nil || (searchVar[v] == nil && posVar[v] == nil) {
 					continue
 				}
 				tv, has := info.Types[pair[1]]
@@ -1450,7 +1487,12 @@ func ruleR09R19(c *Ctx) {
 				}
 				cst, _ := constant.Int64Val(tv.Value)
 				key := fmt.Sprintf("%s search result %s compared with the not-found value", u.Name, v.Name())
-				if cst == -1 || (cst == 0 && (be.Op == token.LSS || be.Op == token.GEQ) && pair[0] == be.X) {
+				// the operator as it reads with the result on the left
+				op := be.Op
+				if pair[0] != be.X {
+					op = map[token.Token]token.Token{token.LSS: token.GTR, token.GTR: token.LSS, token.LEQ: token.GEQ, token.GEQ: token.LEQ, token.EQL: token.EQL, token.NEQ: token.NEQ}[op]
+				}
+				if (cst == -1 && (op == token.EQL || op == token.NEQ || op == token.GTR || op == token.LEQ)) || (cst == 0 && (op == token.LSS || op == token.GEQ)) {
 					c.r.ok("R19", key, m.pos(be.Pos()), "compared with -1 (or tested for being negative)", props...)
 				} else {
 					c.r.bad("R19", key, m.pos(be.Pos()), fmt.Sprintf("the result of the lane search is compared with %d: the search returns -1 when nothing matches and a lane index otherwise, so this test treats a valid lane as not found (or the not-found value as a lane)", cst), props...)
@@ -1505,7 +1547,7 @@ func ruleR09R19(c *Ctx) {
 				}
 			}
 			wrap := c.searchWrapper(c.m.calleeUnit(searchVar[v]))
-			if c.m.calleeName(searchVar[v]) != "searchNode4" && (wrap == nil || !wrap.lanes4) {
+			if !c.isLaneSearch4(searchVar[v]) && (wrap == nil || !wrap.lanes4) {
 				return // the 16-lane search masks unoccupied lanes itself (R20)
 			}
 			if wrap != nil && wrap.bounded >= 0 {
@@ -1637,11 +1679,12 @@ func (c *Ctx) searchWrapper(u *FuncUnit) *searchWrap {
 		}
 		name := c.m.calleeName(call)
 		inner := c.searchWrapper(c.m.calleeUnit(call))
-		if strings.HasPrefix(name, "searchNode") || inner != nil {
+		if c.isLaneSearch(call) || inner != nil {
 			nCalls++
 			sv = identVar(info, as.Lhs[0])
-			lanes4 = name == "searchNode4" || (inner != nil && inner.lanes4)
+			lanes4 = c.isLaneSearch4(call) || (inner != nil && inner.lanes4)
 		}
+		_ = name
 		return true
 	})
 	if nCalls != 1 || sv == nil {
@@ -1719,4 +1762,45 @@ func (c *Ctx) searchWrapper(u *FuncUnit) *searchWrap {
 	}
 	c.swMemo[u] = w
 	return w
+}
+
+// isLaneSearch: the call is the lane search of a size class – a function or method of the package
+// whose name starts with "search" (searchNode4(keys, b), keys.search(b)), with a key byte among
+// its operands and an integer result.
+func (c *Ctx) isLaneSearch(call *ast.CallExpr) bool {
+	f := c.m.staticCallee(call)
+	if f == nil || f.Pkg() != c.m.Pkg {
+		return false
+	}
+	if !strings.HasPrefix(strings.ToLower(f.Name()), "search") {
+		return false
+	}
+	sig, _ := f.Type().(*types.Signature)
+	if sig == nil || sig.Results().Len() != 1 || !isIntType(sig.Results().At(0).Type()) {
+		return false
+	}
+	for i := 0; i < sig.Params().Len(); i++ {
+		if b, ok := sig.Params().At(i).Type().Underlying().(*types.Basic); ok && b.Kind() == types.Uint8 {
+			return true
+		}
+	}
+	return false
+}
+
+// isLaneSearch4: … of the class that packs its key bytes into one word (no fill count among the
+// operands: every lane is compared).
+func (c *Ctx) isLaneSearch4(call *ast.CallExpr) bool {
+	if !c.isLaneSearch(call) {
+		return false
+	}
+	f := c.m.staticCallee(call)
+	sig := f.Type().(*types.Signature)
+	word := func(t types.Type) bool {
+		b, ok := t.Underlying().(*types.Basic)
+		return ok && (b.Kind() == types.Uint32 || b.Kind() == types.Uint64)
+	}
+	if sig.Recv() != nil && word(sig.Recv().Type()) {
+		return true
+	}
+	return sig.Params().Len() > 0 && word(sig.Params().At(0).Type())
 }
